@@ -135,3 +135,20 @@ Example C08_source_example :
   = GoSem.Ret (map ImpProofsD.step_n [SIns; SDel; SIns; SDel; SMatch; SDel], 6%Z)
   /\ ImpGen.imp_align_Global 30 (bs "a") (bs "b") (removelast ex_asym) = GoSem.Panics.
 Proof. vm_compute. split; reflexivity. Qed.
+
+From Bio.Proofs Require ImpProofsF.
+
+(* The same for Local (local.go: the DP loop with the clamp at zero, argmax,
+   traceAlignmentStepsLocal with its break, the start offsets i/bn-1 and i%bn-1). *)
+Theorem C08_local_is_source : forall fuel m a b steps ai bi s, covers m a b ->
+  (S (length a) * S (length b) < fuel)%nat ->
+  local m a b = Ok (steps, ai, bi, s) ->
+  ImpGen.imp_align_Local fuel a b m = GoSem.Ret (map ImpProofsD.step_n steps, ai, bi, s).
+Proof. exact ImpProofsF.imp_Local_ok. Qed.
+Print Assumptions C08_local_is_source.
+
+Example C08_source_local_example :
+  ImpGen.imp_align_Local 60 (bs "baabaa") (bs "bbaaaab") ex_nonpos
+  = GoSem.Ret (map ImpProofsD.step_n [SMatch; SMatch; SMatch; SDel; SMatch; SMatch], 0%Z, 1%Z, 9%Z)
+  /\ ImpGen.imp_align_Local 60 (bs "aaa") (bs "bb") ex_nonpos = GoSem.Ret ([], (-1)%Z, (-1)%Z, 0%Z).
+Proof. vm_compute. split; reflexivity. Qed.
